@@ -316,6 +316,45 @@ class Engine(object):
     def verify_function(self, qual):
         """returns dict(qual, status, obligations=[Obl], reason, meta)"""
         res = {"qual": qual, "status": "ok", "obligations": [], "reason": None}
+        # a list local the contract does not declare (e.g. one a change to the code introduced): its element type is tried out
+        import re as _re
+
+        saved_ct = self.contracts.get(qual)
+        guesses = {}
+        try:
+            while True:
+                try:
+                    run = Run(self, qual)
+                    res["hash"] = ast_hash(run.fdef)
+                    res["file"] = os.path.relpath(run.module.path, self.repo.root)
+                    res["line"] = run.fdef.lineno
+                    obls = run.run()
+                    res["obligations"] = obls
+                    res["inlined"] = sorted(run.inlined)
+                    res["called"] = sorted(run.called)
+                    if guesses:
+                        res["guessed_local_types"] = dict(guesses)
+                    return res
+                except Unsupported as e:
+                    m = _re.search(r"list (\w+) (?:mutated|reassigned) in loop has no known element type", str(e))
+                    order = ["list[str]", "list[int]", "list[obj]"]
+                    if not m or saved_ct is None:
+                        raise
+                    nm = m.group(1)
+                    nxt = order[order.index(guesses[nm]) + 1] if nm in guesses and order.index(guesses[nm]) + 1 < len(order) else (None if nm in guesses else order[0])
+                    if nxt is None:
+                        raise
+                    guesses[nm] = nxt
+                    ct2 = dict(self.contracts[qual])
+                    ct2["locals"] = dict(ct2.get("locals", {}), **{nm: nxt})
+                    self.contracts[qual] = ct2
+        except Unsupported as e:
+            res["status"] = "rejected"
+            res["reason"] = str(e)
+            return res
+        finally:
+            if saved_ct is not None:
+                self.contracts[qual] = saved_ct
         try:
             run = Run(self, qual)
             res["hash"] = ast_hash(run.fdef)
